@@ -827,10 +827,11 @@ def get_constant_value(
         return
 
     if value.type == riscv.Registers.ZERO:
-        if isinstance(value.op, rv32.GetRegisterOp):
-            return IntegerAttr(0, i32)
-        elif isinstance(value.op, rv64.GetRegisterOp):
+        # writes to `zero` are discarded: whichever operation defines the value, it
+        # reads as 0
+        if isinstance(value.op, rv64.GetRegisterOp):
             return IntegerAttr(0, i64)
+        return IntegerAttr(0, i32)
 
     if isinstance(value.op, riscv.MVOp):
         return get_constant_value(value.op.rs)
